@@ -1009,32 +1009,32 @@ def run(ctx):
                          '3 frequencies (quick: 3 or 4 of the 9, '
                          'rotating with the case index); '
                          'non-trivial = a source vector was produced',
-                    time_cap=cap or (70 if q else 500))
+                    time_cap=cap or (280 if q else 1000))
     if ctx.wants('wires'):
         ctx.explore('wires', FN_WIRE, wire_cases(ctx.tier), engine='E1',
                     rule='all simple paths / closed loops of k electrodes '
                          'over sub-alphabets (27 and 8 points), rotating '
                          '(strength, frequency) combinations',
-                    time_cap=cap or (70 if q else 700))
+                    time_cap=cap or (280 if q else 1400))
     if ctx.wants('points'):
         ctx.explore('points', FN_PT, point_cases(ctx.tier), engine='E1',
                     rule='position alphabet x azimuths x elevations, each '
                          'with 3 strengths x 3 frequencies (+ magnetic points '
                          'at interior positions)',
-                    time_cap=cap or (40 if q else 200))
+                    time_cap=cap or (160 if q else 400))
     if ctx.wants('conversions'):
         ctx.explore('conversions', FN_CONV, conv_cases(ctx.tier),
                     engine='E1',
                     rule='centres x azimuths x elevations x lengths: '
                          'rotation, point<->dipole round trips, three '
                          'Dipole formats',
-                    time_cap=cap or (30 if q else 120))
+                    time_cap=cap or (120 if q else 240))
     if ctx.wants('magnetic'):
         ctx.explore('magnetic', FN_MAG, mag_cases(ctx.tier), engine='E1',
                     rule='centres x azimuths x elevations x (length, format):'
                          ' loop geometry and loop source field; non-trivial '
                          '= loop inside the grid',
-                    time_cap=cap or (40 if q else 200))
+                    time_cap=cap or (160 if q else 400))
     if ctx.wants('dispatch'):
         ctx.explore('dispatch', FN_DISP, dispatch_cases(ctx.tier),
                     engine='E1',
